@@ -324,6 +324,11 @@ def _ordstr(op, x, y):
 
 def prim_is(I, st, a, b):
     if b is UNSET or a is UNSET:
+        hook = I.ctx.config.get("is_hook")
+        if hook:
+            r = hook(I, st, a, b)
+            if r is not None:
+                return r
         other = a if b is UNSET else b
         return SB(other is UNSET) if not isinstance(other, ErrFieldRef) else other.is_unset()
     for x, y in ((a, b), (b, a)):
